@@ -407,6 +407,28 @@ def checkGo (model : Bool) (wake : Bool) (sc : Scn) (mode : String) (obs : Strin
       | some m => some m
       | none => if model then modelChecks sc mode cs obs final else none
 
+/-- the high-volume exactly-once monitor (`flood` lines, harness/bqueue/flood.go): the books kept by
+    the harness must balance — every value whose Enqueue returned nil was delivered exactly once or is
+    still in the queue, nothing was delivered that was never accepted (the zero value in particular),
+    each consumer saw each producer's values in the order produced, the queue never exceeded its
+    capacity, and the queue kept answering. -/
+def checkFlood (wake : Bool) (obs : String) : Option String :=
+  let n (k : String) : Int := (fieldInt obs k).getD (-1)
+  let w := (field obs "w").getD "?"
+  let wedged := (field obs "wedged").getD "?"
+  if wedged ≠ "-" then some s!"the queue is wedged (leaked lock?): producers/consumers of the flood scenario no longer return, ignoring their contexts (wedged={wedged})"
+  else if wake then none
+  else if n "invented" ≠ 0 then
+    some s!"a Dequeue returned a value no Enqueue was accepted for ({n "invented"} times, {n "zero"} of them the zero value); witness {w}"
+  else if n "lost" ≠ 0 then
+    some s!"{n "lost"} values whose Enqueue returned nil were never delivered and are not in the queue; witness {w}"
+  else if n "dup" ≠ 0 then some s!"{n "dup"} values were delivered more than once; witness {w}"
+  else if n "ord" ≠ 0 then some s!"per-producer FIFO order violated at a consumer {n "ord"} times; witness {w}"
+  else if n "overcap" ≠ 0 then some "the quiescent queue holds more elements than its capacity"
+  else if n "accepted" < 0 ∨ n "delivered" < 0 ∨ n "left" < 0 ∨ n "accepted" ≠ n "delivered" + n "left" then
+    some s!"exactly-once books do not balance: accepted={n "accepted"} delivered={n "delivered"} left={n "left"}"
+  else none
+
 def mkChecker (model : Bool) (wake : Bool) : Checker where
   σ := Option Scn
   init := none
@@ -418,6 +440,7 @@ def mkChecker (model : Bool) (wake : Bool) : Checker where
         if (kind = "abq" ∧ c ≥ 1) ∨ kind = "lbq" then (some ⟨kind, c⟩, none) else (none, some s!"bad-op {op}")
       | none => (none, some s!"bad-op {op}")
     | "call" :: _ => (st, if obs = "ok" then none else some s!"harness: {obs}")
+    | "flood" :: _ => (st, if st.isNone then some "no-queue" else checkFlood wake obs)
     | "go" :: _ :: mode :: _ =>
       match st with
       | none => (st, some "no-queue")
